@@ -1648,7 +1648,22 @@ fn c14_case<M: Mk>(rng: &mut Rng, ev: &mut Ev) -> R<Outcome> {
         ev.bump("worlds_with_cycle", 1);
     }
 
-    let mut dst: Sim<M> = Sim::new("L");
+    // "An empty world" is usually a fresh one; in 1 of 5 cases it is the source world itself after
+    // every entity in it was deleted - its marker allocator still remembers the old entities.
+    let mut dst: Sim<M> = if rng.chance(1, 5) {
+        for s in src.live_slots() {
+            if rng.chance(1, 2) {
+                src.delete_now(s, ev)?;
+            } else {
+                src.delete_deferred(s, ev)?;
+            }
+        }
+        src.maintain(ev);
+        ev.bump("loads_into_emptied_source_world", 1);
+        src
+    } else {
+        Sim::new("L")
+    };
     let stats = dst.load(&buf, "C14", ev)?;
     if stats.creates as usize != buf.recs.len() || dst.live_slots().len() != buf.recs.len() {
         return Err((
